@@ -3,9 +3,10 @@ import copy
 
 ID = "C10"
 HARNESS_TEST = "TestC10.*"
-COQ_MODEL = ["C10/Check.v"]
+GEN = "c10"
+COQ_MODEL = ["C10/Check.v", "C10/Cfg.v", "Gen/C10Facts.v"]
 COQ_PROOF_DEPS = ["C10/Proofs.v"]
-COQ_OBLIG = ["C10/Property.v"]
+COQ_OBLIG = ["C10/Property.v", "Gen/C10Oblig.v"]
 CASES_HEADER = "Require Import Nib.C10.Model Nib.C10.Spec Nib.C10.Check."
 CASE_TYPE = "case"
 MISMATCH_FN = "mismatch"
@@ -28,7 +29,8 @@ ASSUMPTIONS = [
     "bonded power fitting int64, rates being LegacyDec values; no further restriction since 48f939b / 66a0ce3",
     "voting powers are non-negative and their sum fits int64",
 ]
-TRUSTED = ["coq/Lib/Dec.v (LegacyDec arithmetic on raw integers, validated against cosmossdk.io/math)"]
+TRUSTED = ["harness/gen/c10/main.go normal forms (stage sequence, guards, formulas) — prints terms, never verdicts",
+           "coq/Lib/Dec.v (LegacyDec arithmetic on raw integers, validated against cosmossdk.io/math)"]
 HARNESS_TIMEOUT = {"quick": 600, "thorough": 7200}
 
 
@@ -330,5 +332,5 @@ MANIFEST = {
                    "Go drivers' canonicalisation, tools/props/c10.py rendering. A change of the pivot test from >= to > yields "
                    "another valid weighted median: it is caught by the correspondence (model mismatch), not by Pb. "
                    "params.Whitelist = WhitelistedPairs store along histories (refreshWhitelist not modelled)."),
-    "technique": "Coq proof over an exact-arithmetic model + differential correspondence on keeper-level EndBlocker runs",
+    "technique": "generated structural facts (go/ast) with obligations instantiating the theorems for the current tree + Coq proof over an exact-arithmetic model + differential correspondence on keeper-level EndBlocker runs",
 }
